@@ -24,11 +24,11 @@ pub fn jobs_c11(tier: Tier) -> Vec<(String, u64)> {
 }
 
 pub fn jobs_c14(tier: Tier) -> Vec<(String, u64)> {
-    vec![(format!("load:dups:{}", tier.pick(3, 3)), 16)]
+    vec![(format!("load:dups:{}", tier.pick(3, 4)), 16)]
 }
 
 pub fn jobs_nodeid(_tier: Tier) -> Vec<(String, u64)> {
-    vec![("load:nodeid".into(), 8)]
+    vec![("load:nodeid".into(), 8), ("load:nodeid-dep".into(), 16)]
 }
 
 /// Token lists of all files of a set, plus where each file's choices start.
@@ -383,9 +383,11 @@ fn scope_job(ctx: &mut Ctx, res: &mut ShardResult, max_present: usize) {
         if idx % nshards != shard {
             return;
         }
-        // $in/$out are only meaningful in rule-level slots (3, 4).
+        // $in/$out are magic only in rule-level slots (3, 4); elsewhere they
+        // are ordinary (undefined) names, which is worth checking too -- but
+        // not in path slots, where an empty expansion is an error.
         for (slot, &a) in assign.iter().enumerate() {
-            if a >= 7 && slot != 3 && slot != 4 {
+            if a >= 7 && (slot == 8 || slot == 11) {
                 return;
             }
         }
@@ -408,7 +410,7 @@ fn scope_job(ctx: &mut Ctx, res: &mut ShardResult, max_present: usize) {
 
 static SAVED_STDOUT: std::sync::atomic::AtomicI32 = std::sync::atomic::AtomicI32::new(-1);
 
-fn capture_stdout_end() {
+pub fn capture_stdout_end() {
     use std::io::Write;
     let _ = std::io::stdout().flush();
     let saved = SAVED_STDOUT.swap(-1, std::sync::atomic::Ordering::SeqCst);
@@ -420,7 +422,7 @@ fn capture_stdout_end() {
     }
 }
 
-fn capture_stdout_begin() {
+pub fn capture_stdout_begin() {
     use std::os::fd::AsRawFd;
     use std::io::Write;
     let _ = std::io::stdout().flush();
@@ -438,14 +440,14 @@ fn capture_stdout_begin() {
     }
 }
 
-fn capture_stdout_reset() {
+pub fn capture_stdout_reset() {
     unsafe {
         libc::ftruncate(1, 0);
         libc::lseek(1, 0, libc::SEEK_SET);
     }
 }
 
-fn capture_stdout_read() -> String {
+pub fn capture_stdout_read() -> String {
     use std::io::Write;
     let _ = std::io::stdout().flush();
     std::fs::read_to_string("stdout.cap").unwrap_or_default()
@@ -692,6 +694,117 @@ fn nodeid_job(ctx: &mut Ctx, res: &mut ShardResult) {
     }
 }
 
+/// Node identity between a declared input (spelling p) and a path reported by
+/// the command through its depfile or /showIncludes output (spelling q): if
+/// they are one location the report adds nothing to the step's discovered
+/// list, otherwise exactly the canonical form of q.
+fn nodeid_dep_job(ctx: &mut Ctx, res: &mut ShardResult) {
+    use crate::exec::{self, BuildResult, ExecConfig};
+    use crate::sim::Sim;
+    use vcore::project::{EdgeKind, Project, Step};
+    exec::install_hooks();
+    let job = ctx.job.clone();
+    let canon = |s: &str| String::from_utf8(vcore::refcanon::canon(s.as_bytes())).unwrap();
+    let inside = |s: &str| !s.starts_with("..") && !s.ends_with('/') && !s.ends_with('\\') && !canon(s).starts_with("..");
+    let spellings: Vec<&str> = NODE_SPELLINGS.iter().copied().filter(|s| inside(s)).collect();
+    let only: Option<(String, String, bool)> = ctx.replay.as_ref().map(|c| {
+        (c["p"].as_str().unwrap_or("").to_string(), c["q"].as_str().unwrap_or("").to_string(), c["msvc"].as_bool().unwrap_or(false))
+    });
+    let mut idx = 0u64;
+    for p in &spellings {
+        for q in &spellings {
+            for msvc in [false, true] {
+                idx += 1;
+                match &only {
+                    Some((a, b, m)) => {
+                        if a != p || b != q || *m != msvc {
+                            continue;
+                        }
+                    }
+                    None => {
+                        if idx % ctx.nshards != ctx.shard {
+                            continue;
+                        }
+                    }
+                }
+                ctx.marker.set(idx, format!("{} {} {}", p, q, msvc).as_bytes());
+                res.evaluations += 1;
+                exec::clear_dir();
+                let mut obj = Step {
+                    outs: vec!["obj".into()],
+                    cmdline: "CC".into(),
+                    ins: vec![(EdgeKind::Explicit, "src.c".into()), (EdgeKind::Implicit, canon(p))],
+                    ..Default::default()
+                };
+                if msvc {
+                    obj.msvc = true;
+                } else {
+                    obj.depfile = Some("obj.d".into());
+                }
+                // The manifest spells the declared input as p.
+                let project = Project {
+                    steps: vec![obj],
+                    ..Default::default()
+                };
+                let mut sim = Sim::new(project.clone());
+                sim.touch("src.c");
+                sim.touch(&canon(p));
+                if canon(q) != canon(p) {
+                    sim.touch(&canon(q));
+                }
+                sim.reports.insert("obj".into(), vec![q.to_string()]);
+                // hand-written manifest so that p keeps its spelling
+                let manifest = format!(
+                    "rule cc\n  command = CC\n{}build obj: cc src.c | {}\n",
+                    if msvc { "  deps = msvc\n" } else { "  depfile = obj.d\n" },
+                    p
+                );
+                std::fs::write("build.ninja", &manifest).unwrap();
+                let out = exec::run_build(
+                    ExecConfig {
+                        model: Box::new(sim),
+                        prefix: vec![],
+                        explore_order: false,
+                        db_fault: None,
+                        max_waits: 50,
+                        record_counts: false,
+                        kill_after_waits: None,
+                    },
+                    n2::verif::BuildOpts {
+                        parallelism: 1,
+                        ..Default::default()
+                    },
+                );
+                let replay = || json!({"job": job, "p": p, "q": q, "msvc": msvc});
+                if !matches!(out.result, BuildResult::Success(1)) {
+                    res.violation("nodeid:dep-build-failed", || format!("declared {:?}, reported {:?}: {:?}", p, q, out.result), replay);
+                    continue;
+                }
+                let same = canon(p) == canon(q);
+                let expected: Vec<String> = if same { vec![] } else { vec![canon(q)] };
+                match catch(|| n2::verif::load_disk("build.ninja")) {
+                    Ok(Ok((dump, _))) => {
+                        let got = dump.builds[0].discovered_ins.clone();
+                        if got != expected {
+                            res.violation(
+                                "nodeid:reported-dependency-spelling",
+                                || format!("declared input {:?}, command reported {:?} ({}): remembered dependencies {:?}, expected {:?}", p, q, if msvc { "/showIncludes" } else { "depfile" }, got, expected),
+                                replay,
+                            );
+                            continue;
+                        }
+                        if p != q {
+                            res.nontrivial += 1;
+                        }
+                        res.outcome(if same { "dep:same-node" } else { "dep:distinct-nodes" });
+                    }
+                    other => res.violation("nodeid:load-failed", || format!("{:?}", other.map(|r| r.map(|_| ()).map_err(|e| e.to_string())).map_err(|p| p.message)), replay),
+                }
+            }
+        }
+    }
+}
+
 pub fn run(ctx: &mut Ctx) -> ShardResult {
     let mut res = ShardResult::default();
     let job = ctx.job.clone();
@@ -705,6 +818,7 @@ pub fn run(ctx: &mut Ctx) -> ShardResult {
         "scope" => scope_job(ctx, &mut res, num(2)),
         "dups" => dups_job(ctx, &mut res, num(2)),
         "nodeid" => nodeid_job(ctx, &mut res),
+        "nodeid-dep" => nodeid_dep_job(ctx, &mut res),
         other => panic!("unknown load job {}", other),
     }
     res
